@@ -1419,11 +1419,12 @@ from gen_binrel import g_binrel
 from gen_cacheh import g_cacheh
 from gen_glue import g_glue
 from gen_cliargs import g_cliargs
+from gen_ltsutil import g_ltsutil
 
 
 GENERATORS = {
     "apisweep": g_apisweep,
-    "ordvec": g_ordvec, "achain": g_achain, "bddsim": g_bddsim, "binrel": g_binrel, "cacheh": g_cacheh, "glue": g_glue, "cliargs": g_cliargs,
+    "ordvec": g_ordvec, "achain": g_achain, "bddsim": g_bddsim, "binrel": g_binrel, "cacheh": g_cacheh, "glue": g_glue, "cliargs": g_cliargs, "ltsutil": g_ltsutil,
     **{k: mk_cliop(v) for k, v in CLIOPS.items()},
     "meta": g_meta, "metaf": g_metaf,
     "parse": g_parse,
